@@ -4,6 +4,7 @@
    F8 shape) on every input, and emits one program descriptor per (chain, consumer). *)
 EXTENDS IterDsl, Json, IOUtils, SequencesExt
 CONSTANTS Depth,
+          LongInput,    \* TRUE: one input of 260 items (a position / count kept in a u8 wraps at 256) instead of the six short ones
           Wide      \* TRUE: also the boundary arguments take(0) / take(5) / skip(0) / skip(5) and nth(0) / nth(4)
 
 WideAdapters == IF Wide THEN {Ad("take", 0), Ad("take", 5), Ad("skip", 0), Ad("skip", 5), Ad("map_s", 0)} ELSE {}
@@ -11,7 +12,8 @@ Adapters == WideAdapters \cup {Ad("enumerate", 0), Ad("filter", 0), Ad("filter_m
              Ad("skip", 1), Ad("skip_while", 0), Ad("take", 2), Ad("take_while", 0), Ad("zip", 0)}
 Consumers == {"for_each", "collect", "all", "any", "count", "find", "find_map", "rfind", "fold", "rfold", "next",
               "nth", "position", "rposition"} \cup (IF Wide THEN {"nth0", "nth4"} ELSE {})
-Inputs == << <<>>, <<1>>, <<1, 2, 3, 4>>, <<3, 1, 2>>, <<2, 4, 6, 8, 5>>, <<2, 2, 2>> >>
+Inputs == IF LongInput THEN << [q \in 1..260 |-> (q % 5) + 1] >>
+          ELSE << <<>>, <<1>>, <<1, 2, 3, 4>>, <<3, 1, 2>>, <<2, 4, 6, 8, 5>>, <<2, 2, 2>> >>
 NthArg == 1
 
 Chains == UNION {[1..k -> Adapters] : k \in 0..Depth}
@@ -27,7 +29,7 @@ ModOf == [q \in 1..Len(Inputs) |-> Model(chain, cons, NthArg, Inputs[q])]
 \* the loop machine computes what std computes, except on the known shape
 Agree == KnownShape(chain, cons) \/ ExpOf = ModOf
 
-Line == [m |-> "IterDsl", chain |-> chain, cons |-> cons, n |-> NthArg, exp |-> ExpOf, model |-> ModOf,
+Line == [m |-> "IterDsl", ins |-> (IF LongInput THEN Inputs ELSE <<>>), chain |-> chain, cons |-> cons, n |-> NthArg, exp |-> ExpOf, model |-> ModOf,
          srcs |-> [q \in 1..Len(Inputs) |-> SetToSeq({sk \in SourceKinds : Denotes(sk, Inputs[q])})],
          known |-> IF KnownShape(chain, cons) THEN 1 ELSE 0, differs |-> IF ExpOf = ModOf THEN 0 ELSE 1]
 EmitInv == Serialize(ToJson(Line) \o "\n", IOEnv.OUT,
